@@ -274,8 +274,7 @@ def run_path(case):
             ev = w.move("Rotate", mnode[args[0]])
         else:
             raise core.MachineryError("unknown model action %s" % name)
-        if k >= len(case["path"]) - 2:
-            evs.append(ev)
+        evs.append(ev)
     return evs
 
 
@@ -541,6 +540,25 @@ def count_nontrivial(ctx, driven):
                                         [c for c, k in zip(e["pre"], e["g"]["kids"]) if not k]])
 
 
+
+
+def count_root_comparisons(driven):
+    """Score events that have an earlier Score of the same data in their history with a Reroot / Rotate in
+    between (what C16.RootInvariant compares); a syntactic count for the evidence"""
+    n = 0
+    for case, evs in driven:
+        for i, e in enumerate(evs):
+            if e["action"] != "Score":
+                continue
+            for k in range(i - 1, max(-1, i - 13), -1):
+                q = evs[k]
+                if q["action"] == "Score" and (q["m"], q["w"], q["gm"], q["bylist"]) == (e["m"], e["w"], e["gm"], e["bylist"]):
+                    if any(x["action"] == "Move" and x["kind"] in ("Reroot", "Rotate") for x in evs[k + 1:i]):
+                        n += 1
+                    break
+    return n
+
+
 def run(ctx):
     q = ctx.quick
     # 1. TLC: the theorem table (and its dump = the inputs replayed below)
@@ -564,18 +582,20 @@ def run(ctx):
     ctx.judge("Trace_Fitch", driven, batch=6000 if q else 20000, heap="1g" if q else "2g")
     settle_drift(ctx)
     count_nontrivial(ctx, driven)
+    ctx.extra["root_invariance_comparisons"] = count_root_comparisons(driven)
     ml = 4 if q else 5
     if nbig:
         ctx.notes.append("%d inputs with 5 leaves are checked by TLC at model level; a seeded 1-in-10 sample of them is replayed on the real code" % nbig)
     ctx.rule = ("cases = every complete input with <= 4 leaves of TLC's dump of MC_Fitch/SpecT (%d inputs: every ordered bifurcating shape with 2..%d leaves "
-                "x every 1-character matrix over 9 cell kinds / 2-character matrix over {0,1,gap}; each scored on fresh trees for both gap "
+                "x every 1-character matrix over 9 cell kinds, 2-character matrices over {0,1,gap} up to one leaf less; each scored on fresh trees for both gap "
                 "treatments x every weight vector over {1,2}, as Standard matrix and 1 in %d also embedded in Dna) + one real history per "
                 "transition of the dumped SpecS graph (%d transitions; those starting more than one step from an initial state: 1 in %d) + %d seeded random histories and %d random instances on trees with "
                 "5-9 leaves; distinct_nontrivial = distinct (tree, taxa, matrix, gap treatment, weights, api[, cached leaf sets]) calls whose "
                 "matrix has a column with at least two different symbols" % (ninputs, ml, 6 if q else 2, nedges, 8 if q else 1, nrand, ntab))
     ctx.exhaustive = True
-    ctx.extra["exhaustive_domain"] = ("ordered bifurcating shapes with 2..%d leaves x 1-character matrices over {0,1,2,{01},{02},{12},{012},gap,?} "
-                                      "and 2-character matrices over {0,1,gap} with at most %d leaves (all %d such inputs of the TLC dump replayed)" % (min(ml, 4), min(ml, 4), ninputs - nbig))
+    ctx.extra["exhaustive_domain"] = ("ordered bifurcating shapes x 1-character matrices over {0,1,2,{01},{02},{12},{012},gap,?} with 2..%d leaves "
+                                      "and 2-character matrices over {0,1,gap} with 2..%d leaves: all %d such inputs of the TLC dump replayed"
+                                      % (min(ml, 4), 3 if q else 4, ninputs - nbig))
     ctx.extra["model_inputs"] = ninputs
     ctx.extra["model_inputs_5_leaves_sampled_1_in_10"] = nbig
     ctx.extra["model_transitions"] = nedges
